@@ -142,16 +142,24 @@ WellFormed(v) ==
 RoundTripOf(items) == StoreDict(items) = CanonDict(items)
 
 \* --------------------------------------------------------- spectrum output
-Binners == {"native", "simple", "flux"}
+\* EVERY binner class of taurex.binning that can write a spectrum dictionary (the driver enumerates the package and
+\* refuses a class this set does not name): NativeBinner, SimpleBinner, FluxBinner and the light-curve binner
+\* (the binner of light-curve forward models and observed light curves; its output is on the model's binned grid).
+Binners == {"native", "simple", "flux", "lightcurve"}
 Sizes   == {"heavy", "light", "lighter"}
+HasBinned(binner) == binner # "native"          \* the output carries binned quantities next to the native ones
 NativeKeys == {"native_wngrid", "native_wlgrid", "native_spectrum"}
 BinnedKeys == {"binned_spectrum", "native_wnwidth", "native_wlwidth", "binned_wngrid", "binned_wlgrid",
                "binned_wnwidth", "binned_wlwidth"}
+LightcurveKeys == {"binned_spectrum", "binned_wngrid", "binned_wlgrid", "lightcurve"}
 \* optical depths according to the requested size: heavy = native and binned, light = binned only, lighter = none
+\* -- ONE rule for every binner kind
 TauKeys(binner, size) ==
     (IF size = "heavy" THEN {"native_tau"} ELSE {})
-    \cup (IF size \in {"heavy", "light"} /\ binner # "native" THEN {"binned_tau"} ELSE {})
-SpectrumKeys(binner, size) == NativeKeys \cup (IF binner = "native" THEN {} ELSE BinnedKeys) \cup TauKeys(binner, size)
+    \cup (IF size \in {"heavy", "light"} /\ HasBinned(binner) THEN {"binned_tau"} ELSE {})
+SpectrumKeys(binner, size) ==
+    NativeKeys \cup (CASE binner = "native" -> {} [] binner = "lightcurve" -> LightcurveKeys [] OTHER -> BinnedKeys)
+               \cup TauKeys(binner, size)
 SpectrumTable == {[binner |-> b, size |-> s, keys |-> SpectrumKeys(b, s)] : b \in Binners, s \in Sizes}
 
 \* Every place where the requested output size is consumed.  Callers:
@@ -173,7 +181,10 @@ PlaceSize(caller, place, size) == IF place = "Spectra" \/ caller = "contribution
 TauAt(caller, place, binner, size) == TauKeys(binner, PlaceSize(caller, place, size))
 TauTable == {[caller |-> c, place |-> p, binner |-> b, size |-> s, tau |-> TauAt(c, p, b, s)] :
              c \in Callers, p \in Places, b \in Binners, s \in Sizes} 
-TauRows == {r \in TauTable : r.place \in PlacesOf(r.caller)}
+\* the light-curve binner takes the output tuple of a light-curve forward model only: it is reached by the direct call
+\* (contribution blocks / program / optimizer would need the pylightcurve model and its instrument files)
+CallersOf(binner) == IF binner = "lightcurve" THEN {"direct"} ELSE Callers
+TauRows == {r \in TauTable : r.place \in PlacesOf(r.caller) /\ r.caller \in CallersOf(r.binner)}
 \* firm reading of the three sizes, whatever the caller: nothing in a lighter run, nothing native below heavy
 SizeBounds == \A r \in TauRows : /\ (r.size = "lighter" => r.tau = {})
                                  /\ (r.size # "heavy" => "native_tau" \notin r.tau)
@@ -185,10 +196,16 @@ SizeBounds == \A r \in TauRows : /\ (r.size = "lighter" => r.tau = {})
 \* one particular member.  SizeArith: the decision on the integer implements TauAt.
 SizeVal(size) == CASE size = "heavy" -> 6 [] size = "light" -> 3 [] size = "lighter" -> 1
 RequestInt(caller, place, size) == IF place = "Spectra" \/ caller = "contributions" THEN SizeVal(size) ELSE SizeVal(size) - 3
+\* "swapped:<kind>" = ordering comparisons, but binner kind <kind> has the two payloads exchanged (native above
+\* lighter, binned above light): refuted at the light size of that kind only -- hence binner kind x size is a product
+\* the bindings must cover cell by cell (MC_Output_sizeswapped.cfg).
+OrderTau(binner, r) == (IF r > 3 THEN {"native_tau"} ELSE {}) \cup (IF r > 1 /\ HasBinned(binner) THEN {"binned_tau"} ELSE {})
 TauByInt(test, binner, r) ==
-    IF test = "order"
-    THEN (IF r > 3 THEN {"native_tau"} ELSE {}) \cup (IF r > 1 /\ binner # "native" THEN {"binned_tau"} ELSE {})
-    ELSE (IF r = 6 THEN {"native_tau"} ELSE {}) \cup (IF r # 1 /\ binner # "native" THEN {"binned_tau"} ELSE {})
+    IF test = "identity"
+    THEN (IF r = 6 THEN {"native_tau"} ELSE {}) \cup (IF r # 1 /\ HasBinned(binner) THEN {"binned_tau"} ELSE {})
+    ELSE IF test = "swapped:" \o binner
+    THEN (IF r > 1 THEN {"native_tau"} ELSE {}) \cup (IF r > 3 /\ HasBinned(binner) THEN {"binned_tau"} ELSE {})
+    ELSE OrderTau(binner, r)
 SizeArithOf(test) == \A r \in TauRows : TauByInt(test, r.binner, RequestInt(r.caller, r.place, r.size)) = r.tau
 
 \* exact grid relations (per bin, exact rationals): wl = 10000/wn ; wlwidth = 10000*wnwidth/wn^2
